@@ -43,6 +43,9 @@ def dispatch(prop, tier):
     if prop == "C12":
         from . import smdef_check
         return smdef_check.check(prop, tier)
+    if prop == "C08":
+        from . import inject_check
+        return inject_check.check(prop, tier)
     raise MachineryError("no check for %s" % prop)
 
 
@@ -81,6 +84,9 @@ def main(argv):
             if mod == "SMDef":
                 from . import smdef_check
                 return smdef_check.replay(argv[1])
+            if mod == "Inject":
+                from . import inject_check
+                return inject_check.replay(argv[1])
             raise MachineryError("cannot replay module %s" % mod)
         prop = argv[0]
         tier = argv[1] if len(argv) > 1 else os.environ.get("VERIF_TIER", "quick")
